@@ -34,6 +34,9 @@ pub enum Decoration {
     /// every feature carries the same name; the first one has no path and the
     /// others have one (`path == true`) or the other way round
     DupFeatures,
+    /// every position moved down by 97 lines (two- and three-digit line numbers)
+    /// and names / step texts carrying format and regex metacharacters
+    BigLines,
 }
 
 #[derive(Clone, Copy, Debug)]
@@ -49,6 +52,10 @@ fn special(s: &str) -> String {
     format!("{s} \"q\" 'a' <m> & é")
 }
 
+fn meta(s: &str) -> String {
+    format!("{s} {{}} {{0}} %s $1 \\n [z]* (y)+ a|b ^$ #x :")
+}
+
 /// Parses the configuration's features and decorates names / paths.
 pub fn decorated_sources(cfg: &Config, o: &Opts) -> Sources {
     let mut feats: Vec<gherkin::Feature> =
@@ -59,6 +66,32 @@ pub fn decorated_sources(cfg: &Config, o: &Opts) -> Sources {
         let has_path = if o.deco == Decoration::DupFeatures { (i == 0) != o.path } else { o.path };
         if has_path {
             f.path = Some(PathBuf::from(format!("feat/f{i} é.feature")));
+        }
+    }
+    if o.deco == Decoration::BigLines {
+        let sh = |p: &mut gherkin::LineCol| p.line += 97;
+        for f in &mut feats {
+            sh(&mut f.position);
+            let steps = |v: &mut Vec<gherkin::Step>| v.iter_mut().for_each(|s| s.position.line += 97);
+            if let Some(bg) = &mut f.background {
+                sh(&mut bg.position);
+                steps(&mut bg.steps);
+            }
+            for sc in &mut f.scenarios {
+                sh(&mut sc.position);
+                steps(&mut sc.steps);
+            }
+            for r in &mut f.rules {
+                sh(&mut r.position);
+                if let Some(bg) = &mut r.background {
+                    sh(&mut bg.position);
+                    steps(&mut bg.steps);
+                }
+                for sc in &mut r.scenarios {
+                    sh(&mut sc.position);
+                    steps(&mut sc.steps);
+                }
+            }
         }
     }
     let src = Sources::from_features(feats.clone());
@@ -73,6 +106,7 @@ pub fn decorated_sources(cfg: &Config, o: &Opts) -> Sources {
         match o.deco {
             Decoration::Plain => name.to_owned(),
             Decoration::DupFeatures => name.to_owned(),
+            Decoration::BigLines => meta(name),
             Decoration::Special | Decoration::Rich => special(name),
             Decoration::SameNames => {
                 if is_scen {
@@ -86,6 +120,9 @@ pub fn decorated_sources(cfg: &Config, o: &Opts) -> Sources {
     let deco_step = |st: &mut gherkin::Step| {
         if o.deco == Decoration::Special || o.deco == Decoration::Rich {
             st.value = special(&st.value);
+        }
+        if o.deco == Decoration::BigLines {
+            st.value = meta(&st.value);
         }
         if o.deco == Decoration::Rich {
             st.docstring = Some("doc line 1\n  <doc> \"line\" 2 & é".into());
@@ -258,7 +295,7 @@ pub fn render(src: &Sources, stream: &[Ev], o: &Opts) -> Result<Outputs, String>
     let run = || {
         let (b, l, j, x) =
             (SharedBuf::default(), SharedBuf::default(), SharedBuf::default(), SharedBuf::default());
-        let mut wb = writer::Basic::raw(b.clone(), Coloring::Never, o.verbosity).normalized::<TW>();
+        let mut wb = writer::Basic::raw(b.clone(), Coloring::Never, o.verbosity).normalized::<TW>().summarized();
         let mut wl = Libtest::<TW, _>::new(l.clone());
         let mut wj = Json::new::<TW>(j.clone());
         let mut wx = JUnit::<TW, _>::new(x.clone(), o.verbosity);
@@ -287,6 +324,115 @@ pub fn render(src: &Sources, stream: &[Ev], o: &Opts) -> Result<Outputs, String>
     })
 }
 
+/// Splits the terminal output into the per-entity part and the `[Summary]` block.
+pub fn split_summary(basic: &str) -> (String, Option<String>) {
+    match basic.rfind("[Summary]") {
+        Some(i) => (basic[..i].to_owned(), Some(basic[i..].trim_end().to_owned())),
+        None => (basic.to_owned(), None),
+    }
+}
+
+/// Reads every number of the `[Summary]` block (independent of `Summarize`'s accessors).
+pub fn parse_summary_full(text: &str) -> Result<h_sum::Observed, String> {
+    fn classes(line: &str) -> Result<(usize, usize, usize, usize), String> {
+        let mut c = (0, 0, 0, 0);
+        let Some(i) = line.find(" (") else { return Ok(c) };
+        let inner = line[i + 2..].strip_suffix(')').ok_or_else(|| format!("unbalanced: {line:?}"))?;
+        let (main, retr) = match inner.split_once(" with ") {
+            Some((m, r)) => (m, Some(r)),
+            None => (inner, None),
+        };
+        for part in main.split(", ").filter(|p| !p.is_empty()) {
+            let (n, what) = part.split_once(' ').ok_or_else(|| format!("bad class {part:?}"))?;
+            let n: usize = n.parse().map_err(|_| format!("bad number in {part:?}"))?;
+            match what {
+                "passed" => c.0 = n,
+                "skipped" => c.1 = n,
+                "failed" => c.2 = n,
+                o => return Err(format!("unknown class {o:?}")),
+            }
+        }
+        if let Some(r) = retr {
+            let (n, what) = r.split_once(' ').ok_or_else(|| format!("bad retries {r:?}"))?;
+            if what != "retry" && what != "retries" {
+                return Err(format!("bad retries {r:?}"));
+            }
+            c.3 = n.parse().map_err(|_| format!("bad number in {r:?}"))?;
+        }
+        Ok(c)
+    }
+    let mut o = h_sum::Observed::default();
+    let mut lines = text.lines();
+    if lines.next() != Some("[Summary]") {
+        return Err(format!("no [Summary] header: {text:?}"));
+    }
+    for l in lines {
+        let head = l.split(" (").next().unwrap_or(l);
+        let num = || -> Result<usize, String> {
+            l.split_whitespace().next().and_then(|n| n.parse().ok()).ok_or_else(|| format!("no number: {l:?}"))
+        };
+        if head.contains("parsing error") || head.contains("hook error") {
+            for part in l.split(", ") {
+                let n: usize = part
+                    .split_whitespace()
+                    .next()
+                    .and_then(|n| n.parse().ok())
+                    .ok_or_else(|| format!("no number: {part:?}"))?;
+                if part.contains("parsing error") {
+                    o.parsing_errors = n;
+                } else if part.contains("hook error") {
+                    o.hook_errors = n;
+                } else {
+                    return Err(format!("unknown part {part:?}"));
+                }
+            }
+        } else if head.contains("feature") {
+            o.features = Some(num()?);
+        } else if head.contains("rule") {
+            o.rules = Some(num()?);
+        } else if head.contains("scenario") {
+            o.summary_scenarios = Some(num()?);
+            o.sc = classes(l)?;
+        } else if head.contains("step") {
+            o.summary_steps = Some(num()?);
+            o.st = classes(l)?;
+        } else if !l.trim().is_empty() {
+            return Err(format!("unknown summary line {l:?}"));
+        }
+    }
+    Ok(o)
+}
+
+/// The terminal `[Summary]` against a recount of the stream; the deviations of the
+/// recorded `Summarize` defects are attributed by the exact model of `h_sum`.
+pub fn check_terminal_summary(
+    cfg: &Config,
+    stream: &[Ev],
+    summary: Option<&str>,
+) -> Option<(String, Option<&'static str>)> {
+    use crate::rec::Seen;
+    let Some(text) = summary else {
+        return Some(("the terminal output has no [Summary] block".into(), None));
+    };
+    let obs = match parse_summary_full(text) {
+        Ok(o) => o,
+        Err(e) => return Some((format!("the [Summary] block does not parse: {e}"), None)),
+    };
+    let seen = vec![Seen::Event(Ev::Finished), Seen::Write(text.to_owned())];
+    let vs = h_sum::check(h_sum::Nest::Sum, stream, &obs, &seen, &obs);
+    if vs.is_empty() {
+        return None;
+    }
+    let last_own: std::collections::BTreeMap<String, Option<String>> = cfg
+        .scen_infos()
+        .iter()
+        .map(|i| (i.name.clone(), i.calls.iter().rev().find(|c| !c.is_bg).map(|c| c.text.clone())))
+        .collect();
+    let finding = h_sum::explain(stream, &vs, &obs, &last_own);
+    let msg = vs.iter().map(|v| format!("[{}] {}", v.key, v.msg)).collect::<Vec<_>>().join(" | ");
+    Some((format!("terminal [Summary] disagrees with the entries of the run: {msg}; summary was {text:?}"), finding))
+}
+
 pub fn opt_sets(thorough: bool) -> Vec<Opts> {
     let mut v = Vec::new();
     for path in [true, false] {
@@ -296,6 +442,7 @@ pub fn opt_sets(thorough: bool) -> Vec<Opts> {
             Decoration::SameNames,
             Decoration::Rich,
             Decoration::DupFeatures,
+            Decoration::BigLines,
         ] {
             if deco == Decoration::Rich {
                 v.push(Opts { path, deco, libtest_show_output: true, libtest_report_time: false, verbosity: 2 });
@@ -445,7 +592,20 @@ pub fn run(a: &ShardArgs) -> serde_json::Value {
                     "message": format!("a reporter panicked on a contract-abiding stream: {msg}"),
                     "finding": serde_json::Value::Null,
                 })),
-                Ok(out) => {
+                Ok(mut out) => {
+                    let (body, summary) = split_summary(&out.basic);
+                    out.basic = body;
+                    if let Some((msg, finding)) = check_terminal_summary(&cfg, &stream, summary.as_deref()) {
+                        let k = format!("\"terminal-summary\"|{finding:?}");
+                        let n = per_key.entry(k).or_default();
+                        *n += 1;
+                        if *n <= 3 {
+                            violations.push(json!({
+                                "engine": "hist", "property": "C14", "tier": a.tier, "key": "terminal-summary",
+                                "case_index": ci, "opts_index": oi, "message": msg, "finding": finding,
+                            }));
+                        }
+                    }
                     let rec = json!({
                         "case_index": ci, "opts_index": oi,
                         "opts": {"path": o.path, "deco": format!("{:?}", o.deco), "show_output": o.libtest_show_output,
@@ -475,7 +635,7 @@ pub fn run(a: &ShardArgs) -> serde_json::Value {
         "property": "C14", "tier": a.tier,
         "total_configs": cs.len() * osets.len(), "configs_done": evaluations, "configs_skipped_budget": skipped,
         "evaluations": evaluations, "distinct_nontrivial": nontrivial.len(),
-        "rule": "streams of the C12 grammar (quick: every 2nd single-scenario and every 24th two-scenario case) x {with path, path-less} x {plain, quotes/markup/non-ASCII names, same-named scenarios, rich (doc strings, tables, logs, World), same-named features of which one is path-less} x reporter options (libtest show_output / report_time, verbosity 0/1) through Normalize<Basic|Libtest|Json|JUnit> into memory sinks; outputs parsed back by tools/parse_reports.py (json, xml.etree, line parser); non-trivial = distinct (stream, options) with a non-passed fact",
+        "rule": "streams of the C12 grammar (quick: every 2nd single-scenario and every 24th two-scenario case) x {with path, path-less} x {plain, quotes/markup/non-ASCII names, same-named scenarios, rich (doc strings, tables, logs, World), same-named features of which one is path-less, positions shifted to two/three-digit lines with format/regex metacharacters in names} x reporter options (libtest show_output / report_time, verbosity 0/1) through Summarize<Normalize<Basic>> and Normalize<Libtest|Json|JUnit> into memory sinks; the terminal [Summary] block is parsed and compared with a recount of the stream; outputs parsed back by tools/parse_reports.py (json, xml.etree, line parser); non-trivial = distinct (stream, options) with a non-passed fact",
         "exhaustive": skipped == 0,
         "details": {"records_parsed_back": parsed_ok},
         "violations": violations, "samples": samples,
